@@ -402,3 +402,158 @@ pub fn replay(v: &serde_json::Value) -> bool {
     println!("replay {name} x={} y={} imm={}: interpreter {} reference {}", fmt_f(x), fmt_f(y), fmt_f(imm), fmt_f(got), fmt_f(want));
     bits_eq(got, want)
 }
+
+// =====================================================================================================
+// interval_sweep (C03): dense narrow boxes over 16 orders of magnitude for the one-operand opcodes and
+// for `mod`/`atan2` with an immediate, through the VM and the JIT interval evaluators.  The operand
+// grid of interp_interval has 12 values; periodic and piecewise functions (sin, cos, tan, floor, round,
+// mod) need boxes around EVERY kind of period boundary, far from the origin as well (added for seeded
+// change C03-m4: a quadrant computation that is wrong only below -6434 rad).
+// =====================================================================================================
+fn sweep_centres(thorough: bool) -> Vec<f32> {
+    let mut c: Vec<f32> = vec![0.0];
+    let hp = std::f64::consts::FRAC_PI_2;
+    // multiples of pi/2 at k = +-(2^j + d): period boundaries of the trigonometric functions, near and far
+    for j in 0..=(if thorough { 22 } else { 20 }) {
+        for d in -2i64..=2 {
+            let k = (1i64 << j) + d;
+            c.push((k as f64 * hp) as f32);
+            c.push((-k as f64 * hp) as f32);
+        }
+    }
+    for k in [3i64, 5, 6, 7, 9, 10, 11, 13, 100, 1000, 4097, 4100, 5000, 10_000, 100_000] {
+        c.push((k as f64 * hp) as f32);
+        c.push((-k as f64 * hp) as f32);
+    }
+    // geometric ladder, both signs: integers +- 1/2 (rounding boundaries) included
+    let ms: &[f32] = if thorough { &[1.0, 1.0625, 1.17, 1.25, 1.37, 1.5, 1.61, 1.75, 1.83, 1.9375] } else { &[1.0, 1.17, 1.5, 1.83] };
+    for e in -10..=24 {
+        for &m in ms {
+            let v = m * (2.0f32).powi(e);
+            c.push(v);
+            c.push(-v);
+        }
+    }
+    for k in -6..=6 {
+        c.push(k as f32 + 0.5);
+        c.push(k as f32);
+    }
+    c
+}
+
+fn sweep_points(lo: f32, hi: f32) -> Vec<f32> {
+    let mut p = vec![lo, hi];
+    let n = 24;
+    for i in 1..n {
+        let t = i as f64 / n as f64;
+        let v = (lo as f64 * (1.0 - t) + hi as f64 * t) as f32;
+        if v >= lo && v <= hi {
+            p.push(v);
+        }
+    }
+    // every multiple of pi/2 and every half-integer inside (and their f32 neighbours)
+    for (step, limit) in [(std::f64::consts::FRAC_PI_2, 64usize), (0.5f64, 64usize)] {
+        let k0 = (lo as f64 / step).ceil();
+        for q in 0..limit {
+            let v = ((k0 + q as f64) * step) as f32;
+            if v > hi {
+                break;
+            }
+            for w in [v, f32::from_bits(v.to_bits().wrapping_sub(1)), f32::from_bits(v.to_bits().wrapping_add(1))] {
+                if w >= lo && w <= hi {
+                    p.push(w);
+                }
+            }
+        }
+    }
+    p
+}
+
+pub fn interval_sweep(thorough: bool) -> Report {
+    use crate::helpers::one_op_pair;
+    use fidget_core::context::BinaryOpcode as B;
+    let centres = sweep_centres(thorough);
+    let widths: &[f32] = if thorough { &[0.0, 1.0e-6, 0.01, 0.3, 0.8, 1.0, 1.6, 2.5, 4.0] } else { &[0.0, 0.01, 0.3, 1.0, 2.5] };
+    let table: Vec<OpCase> = op_table().into_iter().filter(|c| c.kind == Kind::Reg || (matches!(c.kind, Kind::RegImm | Kind::ImmReg) && matches!(c.reference, Ref::Bin(B::Mod) | Ref::Bin(B::Atan)))).collect();
+    let n_ops = table.len();
+    let mut r = crate::helpers::par_map(&table, "interval_sweep", |case, r| {
+        let imms: &[f32] = if case.kind == Kind::Reg { &[0.0] } else { &[1.0, 2.5, -3.0, 0.37] };
+        for &imm in imms {
+            let (vm, jit, _two) = one_op_pair(case, crate::helpers::Place::Direct(0, 1, 2), imm, 1);
+            let vt = vm.interval_tape(Default::default());
+            let jt = jit.interval_tape(Default::default());
+            let mut vev = crate::helpers::JVm::new_interval_eval();
+            let mut jev = fidget_jit::JitFunction::new_interval_eval();
+            for &c in &centres {
+                for &w in widths {
+                    // relative width far from the origin (an absolute 0.3 is below one ulp at 1e7)
+                    for wv in [w, w * c.abs().max(1.0) * 1.0e-3] {
+                        let (lo, hi) = (c - wv, c + wv);
+                        if !(lo <= hi) || !lo.is_finite() || !hi.is_finite() {
+                            continue;
+                        }
+                        let ia = Interval::new(lo, hi);
+                        let pts = sweep_points(lo, hi);
+                        // the VM first: a panic there is a reportable failure; the same box would abort the process in the JIT (panic inside an extern "sysv64" call-out), so it is skipped there
+                        let vm_out = std::panic::catch_unwind(std::panic::AssertUnwindSafe(|| vev.eval(&vt, &[ia, ia]).map(|(o, _)| o.to_vec())));
+                        let vm_out = match vm_out {
+                            Ok(o) => o,
+                            Err(_) => {
+                                r.cases += 1;
+                                r.fail(format!("vm:{}:A={ia:?}:imm={}", case.name, fmt_f(imm)), format!("[vm-panic:{}] the VM interval evaluator panicked on a finite box", case.name),
+                                       json!({"contract":"interval_sweep","evaluator":"vm","op":case.name,"a":[lo.to_bits(),hi.to_bits()],"imm":imm.to_bits(),"x":lo.to_bits()}));
+                                vev = crate::helpers::JVm::new_interval_eval();
+                                continue;
+                            }
+                        };
+                        for (which, out) in [("vm", vm_out), ("jit", jev.eval(&jt, &[ia, ia]).map(|(o, _)| o.to_vec()))] {
+                            r.cases += 1;
+                            let Ok(out) = out else {
+                                r.fail(format!("{which}:{}:A={ia:?}", case.name), "eval error".into(), json!({"contract":"interval_sweep","op":case.name}));
+                                continue;
+                            };
+                            for &x in &pts {
+                                let (a, b) = operands(case, false, x, 0.0, imm);
+                                if excluded(case, if case.kind == Kind::ImmReg { b } else { a }, if case.kind == Kind::ImmReg { a } else { b }) {
+                                    continue;
+                                }
+                                let v = ref_eval(case.reference, case.kind, a, b);
+                                if !encloses(out[0], v) {
+                                    let class = if which == "jit" { "jit-not-enclosing" } else { "vm-not-enclosing" };
+                                    r.fail(format!("{which}:{}:A={ia:?}:imm={}", case.name, fmt_f(imm)),
+                                           format!("[{class}:{}] point {} evaluates to {} outside the returned interval {:?}", case.name, fmt_f(x), fmt_f(v), out[0]),
+                                           json!({"contract":"interval_sweep","evaluator":which,"op":case.name,"a":[lo.to_bits(),hi.to_bits()],"imm":imm.to_bits(),"x":x.to_bits()}));
+                                    break;
+                                }
+                            }
+                        }
+                    }
+                }
+            }
+        }
+    });
+    r.distinct = r.cases;
+    r.exhaustive = false;
+    r.space = format!("{n_ops} opcodes (every one-operand opcode; mod and atan2 with an immediate on either side x 4 immediates) x {} box centres (0, +-k*pi/2 for k = 2^j + d up to j = 20 and a ladder of other k, +-m*2^e for e in -10..=24, integers and half-integers) x {} widths, absolute and relative to the centre x VM and JIT interval evaluators; points: both ends, 23 evenly spaced, every multiple of pi/2 and every half-integer inside with their f32 neighbours; the returned interval must contain the reference f32 value (4 ulp slack) unless it is the NaN interval or the point value is NaN", centres.len(), widths.len());
+    r
+}
+
+pub fn sweep_replay(v: &serde_json::Value) -> bool {
+    use crate::helpers::one_op_pair;
+    let name = v["op"].as_str().unwrap_or("");
+    let Some(case) = op_table().into_iter().find(|c| c.name == name) else { return false };
+    let f = |k: &serde_json::Value| f32::from_bits(k.as_u64().unwrap_or(0) as u32);
+    let (lo, hi, imm, x) = (f(&v["a"][0]), f(&v["a"][1]), f(&v["imm"]), f(&v["x"]));
+    let (vm, jit, _) = one_op_pair(&case, crate::helpers::Place::Direct(0, 1, 2), imm, 1);
+    let ia = Interval::new(lo, hi);
+    let out = if v["evaluator"].as_str() == Some("jit") {
+        fidget_jit::JitFunction::new_interval_eval().eval(&jit.interval_tape(Default::default()), &[ia, ia]).map(|(o, _)| o.to_vec())
+    } else {
+        crate::helpers::JVm::new_interval_eval().eval(&vm.interval_tape(Default::default()), &[ia, ia]).map(|(o, _)| o.to_vec())
+    };
+    let Ok(out) = out else { return false };
+    let (a, b) = operands(&case, false, x, 0.0, imm);
+    let val = ref_eval(case.reference, case.kind, a, b);
+    println!("{} on {:?} (imm {}) -> {:?}; at the point {} the operation gives {}: {}", name, ia, fmt_f(imm), out[0], fmt_f(x), fmt_f(val), if encloses(out[0], val) { "enclosed" } else { "NOT ENCLOSED" });
+    encloses(out[0], val)
+}
